@@ -38,7 +38,8 @@ class Contract:
 
     def __init__(self, target, args=None, requires=None, ensures=(), outcomes=None,
                  returns=None, effect=None, result=None, setup=None, covers=None,
-                 inputs_of=None, replay=None, note=''):
+                 inputs_of=None, replay=None, note='', label=None,
+                 outputs=None):
         self.target = target
         self.fn = resolve(target)
         self.args = dict(args or {})
@@ -52,6 +53,7 @@ class Contract:
         self.covers = covers or []  # outcome labels that must be reachable
         self.replay = replay        # callable(model) -> dict(ok=bool, ...): native replay
         self.note = note
+        self.label = label or target
 
 
 class Env:
@@ -77,10 +79,11 @@ class Env:
         self.current_target = None
         self.touched = {}
         self.trusted = []           # human readable list of assumed contracts
+        self.attr_models = {}       # (schema, attr) -> ModelMethod evaluated on attribute read
 
     # -- registration helpers
-    def add_class(self, name, kind='obj', pyclass=None, fields=None, closed=False):
-        self.classes[name] = dict(kind=kind, pyclass=resolve(pyclass) if isinstance(pyclass, str) else pyclass,
+    def add_class(self, name, kind='obj', pyclass=None, fields=None, closed=False, **kw):
+        self.classes[name] = dict(kw, kind=kind, pyclass=resolve(pyclass) if isinstance(pyclass, str) else pyclass,
                                   fields=dict(fields or {}), closed=closed)
 
     def add_contract(self, c):
